@@ -120,6 +120,8 @@ def check(rep, F, tier, replay=None):
                     if t[1] == "assert" and t[4].split(":")[0] in ("Overflow", "OverflowNeg", "DivisionByZero", "RemainderByZero") and not bb["c"]:
                         rep.violation("A-nochecked", "%s|%s" % (F.key(sub), t[4]), "%s uses an unchecked integer operator (%s) on an amount" % (F.key(sub), t[4]), {"function": sub})
     rep.floor("certificate tables extracted", 4, len(tables))
+    from ruleutil import ord_eq_rule
+    ord_eq_rule(rep, F)
     return rep.finish(EXPLANATION, ["the ledger table in tables/c20_ledger.json is a correct transcription of the Conway rules", "the explicit-amount fields are named `coin`/`deposit` (resolved field names, checked by the compiler)"], ["rustc HIR/typeck + MIR (csl-facts)", "tables/c20_ledger.json", "tables/mustflow.json"])
 
 
